@@ -469,6 +469,19 @@ func (m *Module) renderTypes(p *Pkg) world.File {
 			case t.Src.HasErr:
 				results = "(" + rt + ", error)"
 			}
+			if t.Src.ProvID%5 == 0 {
+				// named results, one of them called like the identifiers wire generates
+				switch {
+				case t.Src.HasCleanup && t.Src.HasErr:
+					results = "(v " + rt + ", cleanup func(), err error)"
+				case t.Src.HasCleanup:
+					results = "(v " + rt + ", cleanup func())"
+				case t.Src.HasErr:
+					results = "(v " + rt + ", err error)"
+				default:
+					results = "(v " + rt + ")"
+				}
+			}
 			flags := 0
 			if t.Src.HasErr {
 				flags |= 1
